@@ -308,6 +308,8 @@ def check_integral(prog: Program, res: Result, ig, rule: str) -> None:
 def check(prog: Program, res: Result) -> None:
     check_rough(prog, res)
     check_refine(prog, res)
+    from . import _wire
+    _wire.check_peak_wiring(prog, res, "C06-wire")
     from . import c12
     res.borrow(c12.check_split, "C06-split", prog)
     res.assumptions.append("completeness/soundness against a brute-force neighbour scan, plateaus and the half-patch bound are not decided")
@@ -315,6 +317,10 @@ def check(prog: Program, res: Result) -> None:
 
 F = "sleap_nn/inference/peak_finding.py"
 VARIANTS = [
+    Variant("wire-threshold-falsy-default", "sleap_nn/inference/peak_finding.py", "    ) = find_local_peaks_rough(cms, threshold=threshold)", "    ) = find_local_peaks_rough(cms, threshold=threshold or 0.2)", "C06-wire"),
+    Variant("wire-patch-size-dropped", "sleap_nn/inference/bottomup.py", "            refinement=self.refinement,\n            integral_patch_size=self.integral_patch_size,\n        )\n        # Adjust for stride and scale.", "            refinement=self.refinement,\n        )\n        # Adjust for stride and scale.", "C06-wire"),
+    Variant("bp-wire-positional", "sleap_nn/inference/bottomup.py", "            cms.detach(),\n            threshold=self.peak_threshold,\n            refinement=self.refinement,\n            integral_patch_size=self.integral_patch_size,\n        )\n        # Adjust for stride and scale.", "            cms.detach(),\n            self.peak_threshold,\n            self.refinement,\n            self.integral_patch_size,\n        )\n        # Adjust for stride and scale.", None),
+
     Variant("strict-ge", F, "    argmax_and_thresh_img = (cms > max_img) & (cms > threshold)", "    argmax_and_thresh_img = (cms >= max_img) & (cms > threshold)", "C06-strict"),
     Variant("strict-thresh-on-dilated", F, "    argmax_and_thresh_img = (cms > max_img) & (cms > threshold)", "    argmax_and_thresh_img = (cms > max_img) & (max_img > threshold)", "C06-strict"),
     Variant("kernel-centre", F, "    kernel = torch.tensor([[1, 1, 1], [1, 0, 1], [1, 1, 1]], dtype=torch.float32)", "    kernel = torch.tensor([[1, 1, 1], [1, 1, 1], [1, 1, 1]], dtype=torch.float32)", "C06-kernel"),
